@@ -1,7 +1,7 @@
 (* C08 -- complex instances are accepted exactly when supertype constraints allow them.
    Only statements closed by [exact]. *)
 From Coq Require Import List NArith Bool Permutation.
-From SC Require Import Complex Complex_Proofs.
+From SC Require Import Complex Complex_Proofs ComplexFlat_Proofs.
 Import ListNotations.
 
 (* Whether a combination is supported depends on the set of part names only: not on the order
@@ -27,6 +27,28 @@ Theorem c08_supports_iff_legal_refuted :
   supports G_twosupers [1; 3; 4; 5]%N = true /\ legal G_twosupers [1; 3; 4; 5]%N = false.
 Proof. exact twosupers_refuted. Qed.
 Print Assumptions c08_supports_iff_legal_refuted.
+
+(* Positive half for the hierarchies most schemas have: when all subtypes of e (mentioned in its
+   SUPERTYPE OF expression or not) are leaves, the tree exp2cxx builds for e denotes exactly: e alone
+   when nothing is declared below it, otherwise e together with one of the name sets its declared
+   constraint allows (any nesting of ONEOF / AND / ANDOR, unmentioned subtypes joined by ANDOR).
+   Equality of the lists of sets, for every graph, entity and expression. *)
+Theorem c08_flat_hierarchy_tree_is_the_constraint : forall G f e,
+  (forall s, In s (mentioned G e) -> subs G s = []) ->
+  (forall s, In s (subs G e) -> subs G s = []) ->
+  sets (build (S f) G e) =
+  match declared G e, implicit G e with
+  | None, [] => [[e]]
+  | _, _ => map (cons e) (dsets (constraint G e))
+  end.
+Proof. exact flat_tree_denotes_constraint. Qed.
+Print Assumptions c08_flat_hierarchy_tree_is_the_constraint.
+
+(* non-vacuity: G_oneof's root has leaf subtypes only, and its tree accepts what the rule lists *)
+Example c08_flat_example :
+  (forall s, In s (subs G_oneof 1) -> subs G_oneof s = [])%N /\
+  sets (build 3 G_oneof 1%N) = map (cons 1%N) (dsets (constraint G_oneof 1%N)).
+Proof. split; [intros s H; vm_compute in H; repeat (destruct H as [<-|H]; [reflexivity|]); destruct H | vm_compute; reflexivity]. Qed.
 
 Theorem c08_example :
   supports G_oneof [1; 2]%N = true /\ legal G_oneof [2; 1]%N = true /\
